@@ -39,16 +39,6 @@ Proof.
   destruct Hr as [j [E _]]. subst. apply col_length.
 Qed.
 
-(* a vector at which the gradient vanishes minimises chi2 over all vectors *)
-Lemma gradient_zero_optimal m D x : wf m D -> length x = m -> (forall d, gdot D x d == 0) ->
-  forall z, length z = m -> chi2 D x <= chi2 D z.
-Proof.
-  intros HD Lx Hg z Lz.
-  assert (Hopt : chi2 D x <= chi2 D (vadd x (vsub z x))).
-  { apply (normal_eq_optimal m D x HD Lx); [intros d _; apply Hg | rewrite vsub_length; congruence]. }
-  rewrite (chi2_veq D _ z (vadd_vsub x z ltac:(congruence))) in Hopt. exact Hopt.
-Qed.
-
 (* ------------------------------------------------------------------ astep *)
 Lemma hmf_row_data_wf g wi si : Forall (fun v => 0 <= v) wi -> wf (length g) (hmf_row_data g wi si).
 Proof. intros H. unfold hmf_row_data. apply wf_combine; [apply transpose_rows | exact H]. Qed.
